@@ -241,6 +241,14 @@ def random_oplists(pid, rng, n):
                         r["us"] = [x for x in r["us"] if x != r["u"]]
                     ops.append({"k": "add", "i": 1, "rec": r, "cs": rng.random() < 0.8, "mg": rng.random() < 0.7, "via": "record",
                                 "extra": extra_probes(rng, [r], delim, upool, 6)})
+            if recs and rng.random() < 0.2:
+                # derive, modify the DERIVED converter, then ask the original again: its answers must still fit its records
+                v = rng.choice(recs)
+                how = rng.choice(["sub", "chain"])
+                ops.append({"k": "sub", "i": 1, "P": [v["p"]] + [r["p"] for r in recs[:2]]} if how == "sub" else {"k": "chain", "is": [1], "cs": True})
+                ops.append({"k": "add", "i": "last", "rec": {"p": v["p"], "u": v["u"], "ps": ["leak" + delim.strip(":/|_-") + "x"], "us": ["http://leak.example/"], "pat": None},
+                            "cs": True, "mg": True, "via": "prefix"})
+                ops.append({"k": "probe", "is": [1], "extra": ["leak" + delim.strip(":/|_-") + "x" + delim + "1", "http://leak.example/1"]})
             if pid == "C01" and len(recs) >= 2:
                 sh = list(recs)
                 rng.shuffle(sh)
@@ -368,7 +376,15 @@ def random_oplists(pid, rng, n):
                     ops.append({"k": "chain", "is": idxs[: rng.randrange(1, nconv + 1)], "cs": rng.random() < 0.6})
                 elif kind == "sub":
                     P = rng.sample(names, rng.randrange(0, min(4, len(names)) + 1))
-                    ops.append({"k": "sub", "i": rng.randrange(1, nconv + 1), "P": P})
+                    parent = rng.randrange(1, nconv + 1)
+                    ops.append({"k": "sub", "i": parent, "P": P})
+                    if pid == "C09" and rng.random() < 0.5 and allrecs[parent - 1]:
+                        # modify the subconverter, then take a subconverter of the PARENT again (by the name that was merged below)
+                        v = allrecs[parent - 1][0]
+                        ops.append({"k": "add", "i": "last", "rec": {"p": v["p"], "u": v["u"], "ps": ["leaked"], "us": [], "pat": None},
+                                    "cs": True, "mg": True, "via": "prefix"})
+                        ops.append({"k": "sub", "i": parent, "P": ["leaked", v["p"]]})
+                        ops.append({"k": "chain", "is": [parent], "cs": True})
                 elif kind == "remap_curie":
                     ks = rng.sample(names, rng.randrange(1, min(4, len(names)) + 1))
                     m = [[k, rng.choice(names)] for k in ks]
